@@ -95,6 +95,8 @@ class C01(Check):
                 out.append(("tags", bpt, c, 8, tier))
             for c in range(8):
                 out.append(("perturb", bpt, c, 8, tier))
+            for c in range(8):
+                out.append(("chain", bpt, c, 8, tier))
         for bpt in (1.0, 2.5):
             for i in range(5):
                 for variant in (0, 1):
@@ -153,6 +155,38 @@ class C01(Check):
             inp = inputs[chunk % len(inputs)]
             pieces = next(iter(pv.pv_piece_lists(inp, bpt, 2, 3)))
             ctx.sample({"input": pv.jsonable(inp), "pretext": pv.jsonable(pv.make_pv(bpt, pieces, next(iter(pv.arrangements(len(pieces)))), None))})
+
+    def scope_chain(self, bpt, chunk, chunks, tier, ctx):
+        """
+        4-5 contig scaffolds with short inner contigs between long outer ones and
+        two cuts: several shared contigs at once, so the overhang resolver runs
+        more than one round and discards next to sub-texel contigs.
+        """
+        e = err_len(bpt)
+        full = tier == "thorough"
+        outer = [2 * e + 2, 8 * e]
+        inner = [1, 2, e, e + 1] if full else [2, e, e + 1]
+        n = 0
+        for o1 in outer:
+            for o2 in outer:
+                for inn in itertools.chain(itertools.product(inner, repeat=2), itertools.product(inner, repeat=3) if full else ()):
+                    for sep in SEPS[:2] if full else SEPS[:1]:
+                        for strands in ((1,), (1, -1)) if full else ((1,),):
+                            n += 1
+                            if n % chunks != chunk:
+                                continue
+                            lens = (o1, *inn, o2)
+                            st = tuple(strands[i % len(strands)] for i in range(len(lens)))
+                            inp = (("scaffold_1", pv.scaffold_rows("tpf", "scaffold_1", lens, (sep,) * (len(lens) - 1), st)),)
+                            for pieces in pv.pv_piece_lists(inp, bpt, max_cuts=2, max_pieces=3, min_pieces=2, margin=e + 2):
+                                np_ = len(pieces)
+                                arrs = [tuple(((i, 1),) for i in range(np_)), (tuple((i, 1) for i in range(np_)),)]
+                                if full:
+                                    arrs.append(tuple(((i, -1 if i % 2 else 1),) for i in reversed(range(np_))))
+                                for arr in arrs:
+                                    for painted in ((False,) * len(arr), (True,) * len(arr)):
+                                        self.run_case(inp, pv.make_pv(bpt, pieces, arr, painted), ctx, "chain")
+        ctx.sample({"chain": "outer,inner..,outer contigs with 1-2 cuts", "bpt": bpt})
 
     def scope_tags(self, bpt, chunk, chunks, tier, ctx):
         e = err_len(bpt)
@@ -274,6 +308,8 @@ class C01(Check):
             self.scope_perturb(*shard[1:], ctx)
         elif kind == "baits":
             self.scope_baits(*shard[1:], ctx)
+        elif kind == "chain":
+            self.scope_chain(*shard[1:], ctx)
 
     def replay(self, case, ctx):
         kind, inp, pvspec = case
